@@ -6,6 +6,7 @@ package main
 import (
 	"encoding/base64"
 	"fmt"
+	"os"
 	"sort"
 	"strings"
 
@@ -121,8 +122,14 @@ func (p *plan) generate(yield func(kase)) {
 		yield(kase{Seq: seq, Route: v.route, Ident: id.Name, Loggers: loggers, Devs: devs, Req: b.render()})
 	}
 
+	only := os.Getenv("C40_ONLY")
+
 	for vi := range p.variants {
 		v := &p.variants[vi]
+
+		if only != "" && !strings.Contains(v.route, only) {
+			continue
+		}
 
 		for ii, id := range p.idents {
 			base := v.mk(id)
